@@ -68,10 +68,17 @@ impl Property for C11 {
         ]
     }
 
-    fn generate(&self, rng: &mut Rng, _thorough: bool) -> J {
+    fn generate(&self, rng: &mut Rng, thorough: bool) -> J {
         let cfg = if rng.chance(1, 2) { sqlgen::plain_table_cfg() } else { sqlgen::gen_table_cfg(rng) };
         let mut lc = sqlgen::gen_line_cfg(rng);
         lc.n_range = *rng.pick(&[2, 3, 10]);
+        // size regime: more than 16 / 32 groups, rows and distinct values
+        let large = rng.chance(if thorough { 15 } else { 4 }, 100);
+        if large {
+            lc.keys = rng.range(18, 45) as usize;
+            lc.n_range = *rng.pick(&[10, 40, 1000]);
+            lc.null_pct = *rng.pick(&[0, 10]);
+        }
         let query = if rng.chance(1, 3) {
             sqlgen::gen_select(rng, &cfg, false)
         } else {
@@ -85,7 +92,7 @@ impl Property for C11 {
             }
             q
         };
-        let n_lines = rng.range(1, 12) as usize;
+        let n_lines = if large { rng.range(18, if thorough { 70 } else { 44 }) as usize } else { rng.range(1, 12) as usize };
         let noise_pct = *rng.pick(&[0, 10, 30]);
         let mut lines: Vec<Vec<u8>> = Vec::new();
         for _ in 0..n_lines {
@@ -222,6 +229,9 @@ impl Property for C11 {
         out.probe("aggregate", aggregate as u64);
         out.probe("distinct_having", (upper.contains("DISTINCT ") && upper.contains(" HAVING ")) as u64);
         out.probe("l1_error_agreed", l1_failed_at.is_some() as u64);
+        out.probe("large_more_than_16_lines", (n > 16) as u64);
+        out.probe("large_table_more_than_16_rows", batch.iter().any(|(_, r)| r.len() > 16) as u64);
+        out.probe("wrapped_aggregate", (stmt.contains(") * 2") || stmt.contains(") + 1") || stmt.contains(") - 1")) as u64);
 
         // --- L2: the real FollowFileExecutor under the writer/poll schedule
         if jbool(case, "follow") && l1_failed_at.is_none() {
